@@ -279,7 +279,11 @@ pub fn run_job<S: Service + 'static>(config: &Config, name: &str, job: &Value, t
         return;
     }
     let empty = Vec::new();
-    for step in job["program"].as_array().unwrap_or(&empty) {
+    // a step the world cannot execute (the real API deviated from what the program was written for, or
+    // the program is wrong) ends the program: the recorded prefix is judged, the truncation is reported
+    let mut trunc: Option<String> = None;
+    let mut done = 0u64;
+    'prog: for step in job["program"].as_array().unwrap_or(&empty) {
         let a = step["a"].as_str().unwrap_or("");
         let (o, n, key, x, y) = (num(step, "o"), num(step, "n"), num(step, "key"), num(step, "x"), num(step, "y"));
         let mut res = "ok".to_string();
@@ -287,7 +291,8 @@ pub fn run_job<S: Service + 'static>(config: &Config, name: &str, job: &Value, t
         match a {
             "open" => {
                 if w.facts.contains_key(&n) {
-                    bad_program("node has the service open", step);
+                    trunc = Some("node has the service open".to_string());
+                    break 'prog;
                 }
                 if !w.nodes.contains_key(&n) {
                     w.nodes.insert(n, NodeBuilder::new().config(config).create::<S>().expect("node"));
@@ -312,12 +317,14 @@ pub fn run_job<S: Service + 'static>(config: &Config, name: &str, job: &Value, t
             }
             "close" => {
                 if n == 1 || w.facts.remove(&n).is_none() {
-                    bad_program("close", step);
+                    trunc = Some("close".to_string());
+                    break 'prog;
                 }
             }
             "cw" => {
                 if w.writers.contains_key(&o) || !w.facts.contains_key(&n) {
-                    bad_program("cw", step);
+                    trunc = Some("cw".to_string());
+                    break 'prog;
                 }
                 let f = &w.facts[&n];
                 match flat(guarded(|| f.writer_builder().create().map_err(|e| format!("{e:?}")))) {
@@ -328,13 +335,19 @@ pub fn run_job<S: Service + 'static>(config: &Config, name: &str, job: &Value, t
                 }
             }
             "dw" => {
-                let p = w.writers.remove(&o).unwrap_or_else(|| bad_program("dw", step));
+                let Some(p) = w.writers.remove(&o) else {
+                    trunc = Some("dw".to_string());
+                    break 'prog;
+                };
                 if let Err(e) = guarded(move || drop(p)) {
                     res = e;
                 }
             }
             "we" => {
-                let p = w.writers.get(&o).unwrap_or_else(|| bad_program("we", step));
+                let Some(p) = w.writers.get(&o) else {
+                    trunc = Some("we".to_string());
+                    break 'prog;
+                };
                 match flat(guarded(|| wentry(p, key, x != 0))) {
                     Ok(h) => {
                         // a handle granted although the slot (writer, key) already holds one is kept alive
@@ -348,14 +361,20 @@ pub fn run_job<S: Service + 'static>(config: &Config, name: &str, job: &Value, t
                 }
             }
             "wd" => {
-                let h = w.whandles.remove(&(o, key)).unwrap_or_else(|| bad_program("wd", step));
+                let Some(h) = w.whandles.remove(&(o, key)) else {
+                    trunc = Some("wd".to_string());
+                    break 'prog;
+                };
                 if let Err(e) = guarded(move || drop(h)) {
                     res = e;
                 }
             }
             "upd" | "lw" | "ccopy" => {
                 v = w.next_version(key);
-                let h = w.whandles.get_mut(&(o, key)).unwrap_or_else(|| bad_program("no handle", step));
+                let Some(h) = w.whandles.get_mut(&(o, key)) else {
+                    trunc = Some("no handle".to_string());
+                    break 'prog;
+                };
                 let r = guarded(|| match a {
                     "upd" => h.update(key, v),
                     "lw" => h.loan_write(key, v),
@@ -363,12 +382,18 @@ pub fn run_job<S: Service + 'static>(config: &Config, name: &str, job: &Value, t
                 });
                 match r {
                     Ok(true) => {}
-                    Ok(false) => bad_program("handle state", step),
+                    Ok(false) => {
+                        trunc = Some("handle state".to_string());
+                        break 'prog;
+                    }
                     Err(e) => res = e,
                 }
             }
             "loan" | "commit" | "disc" => {
-                let h = w.whandles.get_mut(&(o, key)).unwrap_or_else(|| bad_program("no handle", step));
+                let Some(h) = w.whandles.get_mut(&(o, key)) else {
+                    trunc = Some("no handle".to_string());
+                    break 'prog;
+                };
                 let r = guarded(|| match a {
                     "loan" => h.loan(),
                     "commit" => h.commit(),
@@ -376,13 +401,17 @@ pub fn run_job<S: Service + 'static>(config: &Config, name: &str, job: &Value, t
                 });
                 match r {
                     Ok(true) => {}
-                    Ok(false) => bad_program("handle state", step),
+                    Ok(false) => {
+                        trunc = Some("handle state".to_string());
+                        break 'prog;
+                    }
                     Err(e) => res = e,
                 }
             }
             "cr" => {
                 if w.readers.contains_key(&o) || !w.facts.contains_key(&n) {
-                    bad_program("cr", step);
+                    trunc = Some("cr".to_string());
+                    break 'prog;
                 }
                 let f = &w.facts[&n];
                 match flat(guarded(|| f.reader_builder().create().map_err(|e| format!("{e:?}")))) {
@@ -393,16 +422,23 @@ pub fn run_job<S: Service + 'static>(config: &Config, name: &str, job: &Value, t
                 }
             }
             "dr" => {
-                let p = w.readers.remove(&o).unwrap_or_else(|| bad_program("dr", step));
+                let Some(p) = w.readers.remove(&o) else {
+                    trunc = Some("dr".to_string());
+                    break 'prog;
+                };
                 if let Err(e) = guarded(move || drop(p)) {
                     res = e;
                 }
             }
             "re" => {
                 if w.rhandles.contains_key(&(o, key)) {
-                    bad_program("re", step);
+                    trunc = Some("re".to_string());
+                    break 'prog;
                 }
-                let p = w.readers.get(&o).unwrap_or_else(|| bad_program("re", step));
+                let Some(p) = w.readers.get(&o) else {
+                    trunc = Some("re".to_string());
+                    break 'prog;
+                };
                 match flat(guarded(|| rentry(p, key, x != 0))) {
                     Ok(h) => {
                         w.rhandles.insert((o, key), h);
@@ -411,13 +447,19 @@ pub fn run_job<S: Service + 'static>(config: &Config, name: &str, job: &Value, t
                 }
             }
             "rd" => {
-                let h = w.rhandles.remove(&(o, key)).unwrap_or_else(|| bad_program("rd", step));
+                let Some(h) = w.rhandles.remove(&(o, key)) else {
+                    trunc = Some("rd".to_string());
+                    break 'prog;
+                };
                 if let Err(e) = guarded(move || drop(h)) {
                     res = e;
                 }
             }
             "get" => {
-                let h = w.rhandles.get(&(o, key)).unwrap_or_else(|| bad_program("get", step));
+                let Some(h) = w.rhandles.get(&(o, key)) else {
+                    trunc = Some("get".to_string());
+                    break 'prog;
+                };
                 match guarded(|| h.get()) {
                     Ok((k2, v2, ok)) => {
                         kk = k2.min(1 << 30);
@@ -433,8 +475,12 @@ pub fn run_job<S: Service + 'static>(config: &Config, name: &str, job: &Value, t
         tw.emit(&json!({"k": "op", "a": a, "o": o, "n": n, "key": key, "x": x, "y": y, "res": res, "v": v,
                         "kk": kk, "whole": whole, "nw": nw, "nr": nr, "nn": nn}));
         summary.count(a, &res);
+        done += 1;
     }
-    tw.emit(&json!({"k": "end"}));
+    if trunc.is_some() {
+        summary.truncated += 1;
+    }
+    tw.emit(&json!({"k": "end", "trunc": trunc.is_some() as u64, "why": trunc.unwrap_or_default(), "done": done}));
     // orderly shutdown in a fixed order (handles, ports, factories of the openers, creator, nodes)
     let World { extras, whandles, rhandles, writers, readers, mut facts, nodes, .. } = w;
     drop(extras);
